@@ -113,7 +113,7 @@ WideSet == {Rec("pq", b, a, NoPref) : b \in {132, 136, 144, 160}, a \in {"auto",
            \cup {Rec("pqr", 200, "siqs", NoPref)}
            \* volume (240 instances per repetition): semiprimes just above the size where SIQS picks its multiplier and
            \* factor base from their widest ranges
-           \cup {Rec("pqvol", 108, "siqs", NoPref)}
+           \cup {Rec("pqvol", b, "siqs", NoPref) : b \in {108, 120}}
 \* P-1 on structured non-squarefree inputs p^2 q [r]: p and q come out of different stage-1 blocks (see the driver)
 Pm1Structured == {Rec("sp2q", b, "pm1", NoPref) : b \in {100, 118, 130, 150}}
 
